@@ -266,7 +266,7 @@ func (r *Run) Do(keys []string) int {
 					}
 				}
 			}
-			if len(cs) <= 1 || o.Kind == "cover" {
+			if len(cs) <= 1 || o.Kind == "cover" || o.Kind == "law" {
 				ex = append(ex, o)
 				continue
 			}
